@@ -51,8 +51,9 @@ run_demo; demo_mut=$?
 (cd $WT && git clean -fdq)
 echo "== go build + suite with mutant" >> $LOG
 (cd $WT && go build ./... && go test -vet=off -count=1 ./... 2>&1 | grep -v "no test files") >> $LOG 2>&1
-suite_fail=$(grep -c "^--- FAIL\|^FAIL" $LOG)
-only_interactive=$(grep "^--- FAIL" $LOG | grep -vc TestRunInteractive)
+# count failures of the project's suite only (after the marker), not the demonstration's own; Example_vmHttp
+# binds port 8080 and collides when several confirmations run at once
+only_interactive=$(sed -n '/== go build + suite/,$p' $LOG | grep "^--- FAIL" | grep -v Example_vmHttp | grep -vc TestRunInteractive)
 declare -A res
 for c in $CHECKS; do
   rm -rf /verif/replays/$c/found
